@@ -148,7 +148,7 @@ Qed.
 (** *** the bridge *)
 Theorem agree_implies_property_q c : qdom c = true -> run_case c = true -> prop_case c = true.
 Proof.
-  destruct c as [| | | | |cx pre op post sugg|]; try discriminate.
+  destruct c as [| | | | |cx pre op post sugg| |]; try discriminate.
   cbn [qdom run_case prop_case]. intros D Rn.
   apply andb_true_iff in D. destruct D as (Cp & D). apply chain_canonicalb in Cp.
   apply andb_true_iff in Rn. destruct Rn as (R1 & R2). apply outcome_eq_P in R1.
